@@ -236,6 +236,42 @@ func c08(c *Ctx) {
 		}
 	}
 
+	// ---- R08.X: what the writers hand to the connection is header ++ message, the message whole -------------
+	r.Rule("R08.X", "the mode writers write the format's header and then the message itself, unmodified and whole: the expressions handed to conn.Write (extracted) are le32(len) / the abridged word count in its two forms, followed by the message parameter", 2)
+	for _, m := range []string{"*abridged", "*intermediate"} {
+		w := c.fn("R08.X", load.ModePkg, m, "WriteMsg")
+		if w == nil {
+			continue
+		}
+		key := "wire:" + strings.TrimPrefix(m, "*")
+		e := c.termEval([]string{"m", "msg"}, nil)
+		e.WatchAll = true
+		if _, ok := e.Eval(w); !ok {
+			r.Undecide("R08.X", key, c.pos(w.Pos()), "WriteMsg could not be evaluated: "+strings.Join(e.Notes, "; "))
+			continue
+		}
+		var writes []*an.T
+		pos := c.pos(w.Pos())
+		for _, sc := range e.Seen {
+			if strings.HasSuffix(sc.Name, ").Write") && len(sc.Args) == 2 {
+				writes = append(writes, sc.Args[1])
+				pos = c.pos(sc.Pos)
+			}
+		}
+		got := an.Fn("cat", writes...)
+		msg := an.Sym("$msg")
+		words := an.Fn("/", an.Fn("len", msg), an.Num(4))
+		var hdr *an.T
+		if m == "*intermediate" {
+			hdr = an.Fn("fixed", an.Fn("le32", an.Fn("len", msg)), an.Num(4))
+		} else {
+			b := func(t *an.T) *an.T { return an.Fn("byte", t) }
+			long := an.Fn("cat", b(an.Num(127)), b(words), b(an.Fn(">>", words, an.Num(8))), b(an.Fn(">>", words, an.Num(16))))
+			hdr = an.Fn("phi", b(words), long)
+		}
+		c.compareTerm("R08.X", key, pos, got, an.Fn("cat", hdr, msg), "bytes written for one message")
+	}
+
 	// ---- R08.A: the readers admit every frame the format carries, up to the 2^20 bytes the property names ------
 	r.Rule("R08.A", "the mode readers allocate and read the body for every frame length the format carries up to 2^20 bytes: no refusal keyed on the announced length is in the way", 2)
 	for _, m := range []string{"*abridged", "*intermediate"} {
